@@ -242,6 +242,37 @@ def check_maxiter(acc_, cfg, runner):
                     acc_.violation({"symptom": "partial-values-not-prefix"}, {**w, "eh": eh}, f"max_iterations={m}: values {jsonable(x.result.values)} are not the values after {m} steps {jsonable(exp)}")
 
 
+def check_two_accumulators(acc_, N, runner):
+    """A gated counter next to TWO ungated accumulators writing one name, ordered by emit/wait_for:
+    the sequential meaning is  for k in k0..N: log += a(k); log += b(k)."""
+    prog = T.prog(
+        [
+            T.fn("inc", ["k"], ["k"], behav={"py": "k + 1"}),
+            T.route("gt", ["k"], ["inc", "END"], behav={"py": f"'inc' if k < {N} else END"}),
+            T.fn("adda", ["log", "k"], ["log"], emit=["a_done"], behav={"py": "log + (('a', k),)"}),
+            T.fn("addb", ["log", "k"], ["log"], wait_for=["a_done"], behav={"py": "log + (('b', k),)"}),
+        ]
+    )
+    p = T.set_async(prog, runner == "async")
+    x = execute(p, {"k": 0, "log": []}, runner=runner, h=H(), error_handling="continue", max_iterations=30 + 10 * N)
+    acc_.evaluations += 1
+    acc_.traces += 1
+    acc_.transitions += len(x.h.steps)
+    for t in x.h.steps:
+        acc_.states.add(hk(("acc2", N, t.step)))
+    exp_log = tuple(e for k in range(N + 1) for e in (("a", k), ("b", k)))
+    exp_counts = {"gt": N + 1, "adda": N + 1, "addb": N + 1}
+    if N:
+        exp_counts["inc"] = N
+    got = _observe(x)
+    w = {"kind": "acc2", "cfg": [N], "runner": runner, "program": prog}
+    if x.exc is not None or x.result is None or x.result.status.value != "completed":
+        acc_.violation({"symptom": "loop-did-not-complete", "sync": "two-accumulators"}, w, f"two-accumulator loop N={N}: status {x.status} error={x.exc or getattr(x.result, 'error', None)!r}, counts {got}")
+        return
+    if got != exp_counts or x.result.values.get("log") != exp_log:
+        acc_.violation({"symptom": "iteration-count", "which": "accumulator", "sync": "two-accumulators", "entry_mid_body": False}, w, f"two-accumulator loop N={N}: counts {got} expected {exp_counts}; log {jsonable(x.result.values.get('log'))} expected {jsonable(exp_log)}")
+
+
 def _det_cfgs(tier):
     N = 3 if tier == "quick" else 6
     for L in (1, 2, 3):
@@ -289,6 +320,11 @@ def shards(tier, seed):
 def run_shard(shard):
     tier, seed, part, s, k = shard
     acc = Acc()
+    if part == "det" and s == 0:
+        for N in range(0, 4 if tier == "quick" else 8):
+            for runner in ("sync", "async"):
+                acc.key(("acc2", N, runner))
+                check_two_accumulators(acc, N, runner)
     gen, fn = {"det": (_det_cfgs, check_det), "script": (_script_cfgs, check_script), "maxiter": (_maxiter_cfgs, check_maxiter)}[part]
     for i, cfg in enumerate(gen(tier)):
         if i % k != s:
@@ -309,7 +345,9 @@ def coverage_extra(acc, tier, seed):
 def replay(rep):
     acc = Acc()
     cfg = rep["cfg"]
-    if rep["kind"] == "det":
+    if rep["kind"] == "acc2":
+        check_two_accumulators(acc, cfg[0], rep["runner"])
+    elif rep["kind"] == "det":
         check_det(acc, tuple(cfg), rep["runner"])
     elif rep["kind"] == "script":
         check_script(acc, (cfg[0], cfg[1], cfg[2], cfg[3], tuple(cfg[4])), rep["runner"])
